@@ -18,6 +18,7 @@ from .. import e2e, guard
 from ..common import Hang, Rng, hx, unhx, watchdog
 from ..runner import Check
 from ..translate import formats
+from . import c15_refs
 
 V2 = "pydantic_v2.BaseModel"
 
@@ -792,6 +793,9 @@ def run(ck: Check) -> None:
     guard.campaign(ck, campaign_containers, 90 if quick else 600)
     guard.campaign(ck, campaign_e2e, 60 if quick else 600)
     guard.campaign(ck, campaign_both_containers)
+    guard.campaign(ck, c15_refs.campaign_loader, 150 if quick else 1500)
+    guard.campaign(ck, c15_refs.campaign_refs, 70 if quick else 700)
+    ck.search_hooks.append(c15_refs.search)
     ck.search_hooks.append(search)
     known_findings(ck)
 
@@ -803,6 +807,8 @@ def replay(ck: Check, path: str) -> int:
     ck.findings = []
     if inp.get("pair") == "both_containers":
         campaign_both_containers(ck)
+    elif inp.get("pair") == c15_refs.PAIR:
+        c15_refs.oracle_case(ck, camp, inp["definitions"], inp["extra"])
     elif "pair" in inp:
         oracle_case(ck, camp, inp["pair"], inp["definitions"], inp.get("with_root", True), inp.get("variant", 0))
     for f in ck.failures:
